@@ -664,7 +664,386 @@ Definition gen_alias_greedy_utilitarian_scheme_additive : list py_alias :=
    mkAlias "ordered_projects"%string Fresh false;
    mkAlias "remaining_budget"%string Scalar false].
 
+(* pabutools/rules/phragmen.py:58 sequential_phragmen with resoluteness=True
+def sequential_phragmen(instance: Instance, profile: AbstractApprovalProfile, initial_loads: list[Numeric] | None=None, initial_budget_allocation: Collection[Project] | None=None, tie_breaking: TieBreakingRule | None=None, resoluteness: bool=True) -> BudgetAllocation | list[BudgetAllocation]:
+
+    def aux(inst, projects, prof, voters, supporters, approval_scores, alloc, cost, allocs, resolute):
+        if len(projects) == 0:
+            alloc.sort()
+            if alloc not in allocs:
+                allocs.append(alloc)
+        else:
+            min_new_maxload = None
+            arg_min_new_maxload = None
+            for project in projects:
+                if approval_scores[project] == 0:
+                    new_maxload = float('inf')
+                else:
+                    new_maxload = frac(sum((voters[i].total_load() for i in supporters[project])) + project.cost, approval_scores[project])
+                if min_new_maxload is None or new_maxload < min_new_maxload:
+                    min_new_maxload = new_maxload
+                    arg_min_new_maxload = [project]
+                elif min_new_maxload == new_maxload:
+                    arg_min_new_maxload.append(project)
+            if any((cost + project.cost > inst.budget_limit for project in arg_min_new_maxload)):
+                alloc.sort()
+                if alloc not in allocs:
+                    allocs.append(alloc)
+            else:
+                tied_projects = sorted(arg_min_new_maxload)
+                if len(tied_projects) > 1:
+                    tied_projects = tie_breaking.order(inst, prof, tied_projects)
+                if resolute:
+                    selected_project = tied_projects[0]
+                    for voter in voters:
+                        if selected_project in voter.ballot:
+                            voter.load = min_new_maxload
+                    alloc.append(selected_project)
+                    projects.remove(selected_project)
+                    aux(inst, projects, prof, voters, supporters, approval_scores, alloc, cost + selected_project.cost, allocs, resolute)
+                else:
+                    for selected_project in tied_projects:
+                        new_voters = deepcopy(voters)
+                        for voter in new_voters:
+                            if selected_project in voter.ballot:
+                                voter.load = min_new_maxload
+                        new_alloc = deepcopy(alloc) + [selected_project]
+                        new_cost = cost + selected_project.cost
+                        new_projs = deepcopy(projects)
+                        new_projs.remove(selected_project)
+                        aux(inst, new_projs, prof, new_voters, supporters, approval_scores, new_alloc, new_cost, allocs, resolute)
+    if tie_breaking is None:
+        tie_breaking = lexico_tie_breaking
+    if initial_budget_allocation is None:
+        initial_budget_allocation = BudgetAllocation()
+    else:
+        initial_budget_allocation = BudgetAllocation(initial_budget_allocation)
+    current_cost = total_cost(initial_budget_allocation)
+    initial_projects = set((p for p in instance if p not in initial_budget_allocation and p.cost <= instance.budget_limit))
+    if initial_loads is None:
+        voters_details = [PhragmenVoter(b, 0, profile.multiplicity(b)) for b in profile]
+    else:
+        voters_details = [PhragmenVoter(b, initial_loads[i], profile.multiplicity(b)) for i, b in enumerate(profile)]
+    supps = {proj: [i for i, v in enumerate(voters_details) if proj in v.ballot] for proj in initial_projects}
+    scores = {project: profile.approval_score(project) for project in instance}
+    all_budget_allocations: list[BudgetAllocation] = []
+    aux(instance, initial_projects, profile, voters_details, supps, scores, initial_budget_allocation, current_cost, all_budget_allocations, resoluteness)
+    if resoluteness:
+        return all_budget_allocations[0]
+    return all_budget_allocations *)
+Definition gen_sequential_phragmen_res (v_instance : inst) (v_profile : py_aprofile) (v_initial_loads : (option (list Q))) (v_initial_budget_allocation : (option py_alloc)) (v_tie_breaking : (option (proj -> Q))) (v_enum : (list proj)) (fuel : nat) : py_res py_alloc :=
+  let v_tie_breaking_2 := match v_tie_breaking with
+  | None => py_name
+  | Some v_tie_breaking_1 => v_tie_breaking_1
+  end in
+  let v_initial_budget_allocation_3 := match v_initial_budget_allocation with
+  | None => let v_initial_budget_allocation_2 := (@nil proj) in
+  v_initial_budget_allocation_2
+  | Some v_initial_budget_allocation_1 => v_initial_budget_allocation_1
+  end in
+  let v_current_cost := (py_total_cost v_instance v_initial_budget_allocation_3) in
+  let v_initial_projects := (filter (fun v_p => ((negb (py_in_list v_initial_budget_allocation_3 v_p)) && (py_le (py_cost v_instance v_p) (budget v_instance)))) v_enum) in
+  let kJ2 := (fun (v_voters_details_1 : (list (aballot * Q * Q)%type)) =>
+  let v_all_budget_allocations := (@nil py_alloc) in
+  let v_aux := (fix v_aux (fuel1 : nat) (v_projects : py_alloc) (v_voters : (list (aballot * Q * Q)%type)) (v_alloc : py_alloc) (v_cost : Q) (v_allocs : (list py_alloc)) {struct fuel1} : py_res (py_alloc * (list (aballot * Q * Q)%type) * py_alloc * (list py_alloc))%type :=
+    match fuel1 with
+    | O => OutOfFuel
+    | Datatypes.S fuel0 =>
+    (if (py_nat_eq (length v_projects) 0%nat)
+  then let v_alloc_1 := (py_sorted_projects v_alloc) in
+  let v_allocs_2 := (if (negb (py_alloc_in v_alloc_1 v_allocs))
+  then let v_allocs_1 := (v_allocs ++ [v_alloc_1]) in
+  v_allocs_1
+  else v_allocs) in
+  (Ok (v_projects, v_voters, v_alloc_1, v_allocs_2))
+  else match py_for (fun (st1 : ((option Qx) * (option py_alloc))%type) v_project => let '(v_min_new_maxload, v_arg_min_new_maxload) := st1 in 
+    (if (py_eq (py_approval_score v_profile v_project) 0)
+  then (if match v_min_new_maxload with None => true | Some n0 => (Qx_ltb PInf n0) end
+  then let v_arg_min_new_maxload_1 := [v_project] in
+  (Next ((Some PInf), (Some v_arg_min_new_maxload_1)))
+  else match v_min_new_maxload with None => (Exit (Raise "TypeError"%string)) | Some v_min_new_maxload_1 => (if (Qx_eqb v_min_new_maxload_1 PInf)
+  then match v_arg_min_new_maxload with None => (Exit (Raise "AttributeError"%string)) | Some u0 => let v_arg_min_new_maxload_2 := (Some (u0 ++ [v_project])) in
+  (Next ((Some v_min_new_maxload_1), v_arg_min_new_maxload_2)) end
+  else (Next ((Some v_min_new_maxload_1), v_arg_min_new_maxload))) end)
+  else match (py_all_some (map (fun v_i_3 => match (py_getitem v_voters v_i_3) with None => None | Some g1 => Some ((snd g1) * (snd (fst g1))) end) (map (fun '(v_i_2, v_v_1) => v_i_2) (filter (fun '(v_i_2, v_v_1) => (approves (fst (fst v_v_1)) v_project)) (py_enumerate v_voters_details_1))))) with None => (Exit (Raise "IndexError"%string)) | Some c1 => let v_new_maxload := (frac ((py_sum c1) + (py_cost v_instance v_project)) (py_approval_score v_profile v_project)) in
+  (if match v_min_new_maxload with None => true | Some n1 => (Qx_ltb (Fin v_new_maxload) n1) end
+  then let v_arg_min_new_maxload_3 := [v_project] in
+  (Next ((Some (Fin v_new_maxload)), (Some v_arg_min_new_maxload_3)))
+  else match v_min_new_maxload with None => (Exit (Raise "TypeError"%string)) | Some v_min_new_maxload_2 => (if (Qx_eqb v_min_new_maxload_2 (Fin v_new_maxload))
+  then match v_arg_min_new_maxload with None => (Exit (Raise "AttributeError"%string)) | Some u1 => let v_arg_min_new_maxload_4 := (Some (u1 ++ [v_project])) in
+  (Next ((Some v_min_new_maxload_2), v_arg_min_new_maxload_4)) end
+  else (Next ((Some v_min_new_maxload_2), v_arg_min_new_maxload))) end) end))
+    v_projects (None, None) with
+  | inl st0 => let '(v_min_new_maxload_3, v_arg_min_new_maxload_5) := st0 in
+  match v_arg_min_new_maxload_5 with None => (Raise "TypeError"%string) | Some u2 => (if (py_any (map (fun v_project_1 => (py_gt (v_cost + (py_cost v_instance v_project_1)) (budget v_instance))) u2))
+  then let v_alloc_2 := (py_sorted_projects v_alloc) in
+  let v_allocs_4 := (if (negb (py_alloc_in v_alloc_2 v_allocs))
+  then let v_allocs_3 := (v_allocs ++ [v_alloc_2]) in
+  v_allocs_3
+  else v_allocs) in
+  (Ok (v_projects, v_voters, v_alloc_2, v_allocs_4))
+  else match v_arg_min_new_maxload_5 with None => (Raise "TypeError"%string) | Some u3 => let v_tied_projects := (py_sorted_projects u3) in
+  let v_tied_projects_2 := (if (py_nat_lt 1%nat (length v_tied_projects))
+  then let v_tied_projects_1 := (tb_order_of_key v_tie_breaking_2 v_tied_projects) in
+  v_tied_projects_1
+  else v_tied_projects) in
+  match (py_getitem v_tied_projects_2 0%nat) with None => (Raise "IndexError"%string) | Some g2 => let v_acc__1 := (@nil (aballot * Q * Q)%type) in
+  match py_for (fun (v_acc__1_1 : (list (aballot * Q * Q)%type)) v_voter => 
+    (if (approves (fst (fst v_voter)) g2)
+  then match v_min_new_maxload_3 with None => (Exit (Raise "TypeError"%string)) | Some u4 => match (py_finite u4) with None => (Exit (Raise "FloatInfinity"%string)) | Some f0 => let v_voter_1 := ((fst (fst v_voter)), f0, (snd v_voter)) in
+  let v_acc__1_2 := (v_acc__1_1 ++ [v_voter_1]) in
+  (Next v_acc__1_2) end end
+  else let v_acc__1_3 := (v_acc__1_1 ++ [v_voter]) in
+  (Next v_acc__1_3)))
+    v_voters v_acc__1 with
+  | inl v_acc__1_4 => let v_alloc_3 := (v_alloc ++ [g2]) in
+  match (py_remove v_projects g2) with None => (Raise "KeyError"%string) | Some rm0 => let v_projects_1 := rm0 in
+  match v_aux fuel0 v_projects_1 v_acc__1_4 v_alloc_3 (v_cost + (py_cost v_instance g2)) v_allocs with
+  | Ok (s0, s1, s2, s3) => (Ok (s0, s1, s2, s3))
+  | Raise e0 => (Raise e0)
+  | OutOfFuel => OutOfFuel
+  end end
+  | inr r1 => r1
+  end end end) end
+  | inr r0 => r0
+  end)
+    end) in
+  match v_aux fuel v_initial_projects v_voters_details_1 v_initial_budget_allocation_3 v_current_cost v_all_budget_allocations with
+  | Ok (s4, s5, s6, s7) => match (py_getitem s7 0%nat) with None => (Raise "IndexError"%string) | Some g3 => (Ok g3) end
+  | Raise e1 => (Raise e1)
+  | OutOfFuel => OutOfFuel
+  end) in
+  match v_initial_loads with
+  | None => let v_voters_details := (map (fun v_b => (v_b, 0, (Qnat (amul v_b)))) v_profile) in
+  (kJ2 v_voters_details)
+  | Some v_initial_loads_1 => match (py_all_some (map (fun '(v_i, v_b_1) => match (py_getitem v_initial_loads_1 v_i) with None => None | Some g0 => Some (v_b_1, g0, (Qnat (amul v_b_1))) end) (py_enumerate v_profile))) with None => (Raise "IndexError"%string) | Some c0 => (kJ2 c0) end
+  end.
+(* what every variable of the function is bound to, and whether that object is mutated in place *)
+Definition gen_alias_sequential_phragmen_res : list py_alias :=
+  [mkAlias "instance"%string (AliasOf "instance"%string) false;
+   mkAlias "profile"%string Scalar false;
+   mkAlias "initial_loads"%string (AliasOf "initial_loads"%string) false;
+   mkAlias "initial_budget_allocation"%string (AliasOf "initial_budget_allocation"%string) false;
+   mkAlias "initial_budget_allocation"%string Fresh true;
+   mkAlias "tie_breaking"%string Scalar false;
+   mkAlias "current_cost"%string Scalar false;
+   mkAlias "initial_projects"%string Fresh true;
+   mkAlias "voters_details"%string Fresh true;
+   mkAlias "supps"%string Scalar false;
+   mkAlias "scores"%string Scalar false;
+   mkAlias "all_budget_allocations"%string Fresh true;
+   mkAlias "projects"%string Fresh true;
+   mkAlias "voters"%string Fresh true;
+   mkAlias "alloc"%string Fresh true;
+   mkAlias "cost"%string Scalar false;
+   mkAlias "allocs"%string Fresh true;
+   mkAlias "min_new_maxload"%string Scalar false;
+   mkAlias "arg_min_new_maxload"%string Fresh false;
+   mkAlias "arg_min_new_maxload"%string Fresh true;
+   mkAlias "arg_min_new_maxload"%string Scalar false;
+   mkAlias "project"%string Scalar false;
+   mkAlias "new_maxload"%string Scalar false;
+   mkAlias "tied_projects"%string Fresh false;
+   mkAlias "selected_project"%string Scalar false;
+   mkAlias "acc__1"%string Fresh true;
+   mkAlias "voter"%string Fresh true].
+
+(* pabutools/rules/phragmen.py:58 sequential_phragmen with resoluteness=False
+def sequential_phragmen(instance: Instance, profile: AbstractApprovalProfile, initial_loads: list[Numeric] | None=None, initial_budget_allocation: Collection[Project] | None=None, tie_breaking: TieBreakingRule | None=None, resoluteness: bool=True) -> BudgetAllocation | list[BudgetAllocation]:
+
+    def aux(inst, projects, prof, voters, supporters, approval_scores, alloc, cost, allocs, resolute):
+        if len(projects) == 0:
+            alloc.sort()
+            if alloc not in allocs:
+                allocs.append(alloc)
+        else:
+            min_new_maxload = None
+            arg_min_new_maxload = None
+            for project in projects:
+                if approval_scores[project] == 0:
+                    new_maxload = float('inf')
+                else:
+                    new_maxload = frac(sum((voters[i].total_load() for i in supporters[project])) + project.cost, approval_scores[project])
+                if min_new_maxload is None or new_maxload < min_new_maxload:
+                    min_new_maxload = new_maxload
+                    arg_min_new_maxload = [project]
+                elif min_new_maxload == new_maxload:
+                    arg_min_new_maxload.append(project)
+            if any((cost + project.cost > inst.budget_limit for project in arg_min_new_maxload)):
+                alloc.sort()
+                if alloc not in allocs:
+                    allocs.append(alloc)
+            else:
+                tied_projects = sorted(arg_min_new_maxload)
+                if len(tied_projects) > 1:
+                    tied_projects = tie_breaking.order(inst, prof, tied_projects)
+                if resolute:
+                    selected_project = tied_projects[0]
+                    for voter in voters:
+                        if selected_project in voter.ballot:
+                            voter.load = min_new_maxload
+                    alloc.append(selected_project)
+                    projects.remove(selected_project)
+                    aux(inst, projects, prof, voters, supporters, approval_scores, alloc, cost + selected_project.cost, allocs, resolute)
+                else:
+                    for selected_project in tied_projects:
+                        new_voters = deepcopy(voters)
+                        for voter in new_voters:
+                            if selected_project in voter.ballot:
+                                voter.load = min_new_maxload
+                        new_alloc = deepcopy(alloc) + [selected_project]
+                        new_cost = cost + selected_project.cost
+                        new_projs = deepcopy(projects)
+                        new_projs.remove(selected_project)
+                        aux(inst, new_projs, prof, new_voters, supporters, approval_scores, new_alloc, new_cost, allocs, resolute)
+    if tie_breaking is None:
+        tie_breaking = lexico_tie_breaking
+    if initial_budget_allocation is None:
+        initial_budget_allocation = BudgetAllocation()
+    else:
+        initial_budget_allocation = BudgetAllocation(initial_budget_allocation)
+    current_cost = total_cost(initial_budget_allocation)
+    initial_projects = set((p for p in instance if p not in initial_budget_allocation and p.cost <= instance.budget_limit))
+    if initial_loads is None:
+        voters_details = [PhragmenVoter(b, 0, profile.multiplicity(b)) for b in profile]
+    else:
+        voters_details = [PhragmenVoter(b, initial_loads[i], profile.multiplicity(b)) for i, b in enumerate(profile)]
+    supps = {proj: [i for i, v in enumerate(voters_details) if proj in v.ballot] for proj in initial_projects}
+    scores = {project: profile.approval_score(project) for project in instance}
+    all_budget_allocations: list[BudgetAllocation] = []
+    aux(instance, initial_projects, profile, voters_details, supps, scores, initial_budget_allocation, current_cost, all_budget_allocations, resoluteness)
+    if resoluteness:
+        return all_budget_allocations[0]
+    return all_budget_allocations *)
+Definition gen_sequential_phragmen_irr (v_instance : inst) (v_profile : py_aprofile) (v_initial_loads : (option (list Q))) (v_initial_budget_allocation : (option py_alloc)) (v_tie_breaking : (option (proj -> Q))) (v_enum : (list proj)) (fuel : nat) : py_res (list py_alloc) :=
+  let v_tie_breaking_2 := match v_tie_breaking with
+  | None => py_name
+  | Some v_tie_breaking_1 => v_tie_breaking_1
+  end in
+  let v_initial_budget_allocation_3 := match v_initial_budget_allocation with
+  | None => let v_initial_budget_allocation_2 := (@nil proj) in
+  v_initial_budget_allocation_2
+  | Some v_initial_budget_allocation_1 => v_initial_budget_allocation_1
+  end in
+  let v_current_cost := (py_total_cost v_instance v_initial_budget_allocation_3) in
+  let v_initial_projects := (filter (fun v_p => ((negb (py_in_list v_initial_budget_allocation_3 v_p)) && (py_le (py_cost v_instance v_p) (budget v_instance)))) v_enum) in
+  let kJ2 := (fun (v_voters_details_1 : (list (aballot * Q * Q)%type)) =>
+  let v_all_budget_allocations := (@nil py_alloc) in
+  let v_aux := (fix v_aux (fuel1 : nat) (v_projects : py_alloc) (v_voters : (list (aballot * Q * Q)%type)) (v_alloc : py_alloc) (v_cost : Q) (v_allocs : (list py_alloc)) {struct fuel1} : py_res (py_alloc * (list (aballot * Q * Q)%type) * py_alloc * (list py_alloc))%type :=
+    match fuel1 with
+    | O => OutOfFuel
+    | Datatypes.S fuel0 =>
+    (if (py_nat_eq (length v_projects) 0%nat)
+  then let v_alloc_1 := (py_sorted_projects v_alloc) in
+  let v_allocs_2 := (if (negb (py_alloc_in v_alloc_1 v_allocs))
+  then let v_allocs_1 := (v_allocs ++ [v_alloc_1]) in
+  v_allocs_1
+  else v_allocs) in
+  (Ok (v_projects, v_voters, v_alloc_1, v_allocs_2))
+  else match py_for (fun (st1 : ((option Qx) * (option py_alloc))%type) v_project => let '(v_min_new_maxload, v_arg_min_new_maxload) := st1 in 
+    (if (py_eq (py_approval_score v_profile v_project) 0)
+  then (if match v_min_new_maxload with None => true | Some n0 => (Qx_ltb PInf n0) end
+  then let v_arg_min_new_maxload_1 := [v_project] in
+  (Next ((Some PInf), (Some v_arg_min_new_maxload_1)))
+  else match v_min_new_maxload with None => (Exit (Raise "TypeError"%string)) | Some v_min_new_maxload_1 => (if (Qx_eqb v_min_new_maxload_1 PInf)
+  then match v_arg_min_new_maxload with None => (Exit (Raise "AttributeError"%string)) | Some u0 => let v_arg_min_new_maxload_2 := (Some (u0 ++ [v_project])) in
+  (Next ((Some v_min_new_maxload_1), v_arg_min_new_maxload_2)) end
+  else (Next ((Some v_min_new_maxload_1), v_arg_min_new_maxload))) end)
+  else match (py_all_some (map (fun v_i_3 => match (py_getitem v_voters v_i_3) with None => None | Some g1 => Some ((snd g1) * (snd (fst g1))) end) (map (fun '(v_i_2, v_v_1) => v_i_2) (filter (fun '(v_i_2, v_v_1) => (approves (fst (fst v_v_1)) v_project)) (py_enumerate v_voters_details_1))))) with None => (Exit (Raise "IndexError"%string)) | Some c1 => let v_new_maxload := (frac ((py_sum c1) + (py_cost v_instance v_project)) (py_approval_score v_profile v_project)) in
+  (if match v_min_new_maxload with None => true | Some n1 => (Qx_ltb (Fin v_new_maxload) n1) end
+  then let v_arg_min_new_maxload_3 := [v_project] in
+  (Next ((Some (Fin v_new_maxload)), (Some v_arg_min_new_maxload_3)))
+  else match v_min_new_maxload with None => (Exit (Raise "TypeError"%string)) | Some v_min_new_maxload_2 => (if (Qx_eqb v_min_new_maxload_2 (Fin v_new_maxload))
+  then match v_arg_min_new_maxload with None => (Exit (Raise "AttributeError"%string)) | Some u1 => let v_arg_min_new_maxload_4 := (Some (u1 ++ [v_project])) in
+  (Next ((Some v_min_new_maxload_2), v_arg_min_new_maxload_4)) end
+  else (Next ((Some v_min_new_maxload_2), v_arg_min_new_maxload))) end) end))
+    v_projects (None, None) with
+  | inl st0 => let '(v_min_new_maxload_3, v_arg_min_new_maxload_5) := st0 in
+  match v_arg_min_new_maxload_5 with None => (Raise "TypeError"%string) | Some u2 => (if (py_any (map (fun v_project_1 => (py_gt (v_cost + (py_cost v_instance v_project_1)) (budget v_instance))) u2))
+  then let v_alloc_2 := (py_sorted_projects v_alloc) in
+  let v_allocs_4 := (if (negb (py_alloc_in v_alloc_2 v_allocs))
+  then let v_allocs_3 := (v_allocs ++ [v_alloc_2]) in
+  v_allocs_3
+  else v_allocs) in
+  (Ok (v_projects, v_voters, v_alloc_2, v_allocs_4))
+  else match v_arg_min_new_maxload_5 with None => (Raise "TypeError"%string) | Some u3 => let v_tied_projects := (py_sorted_projects u3) in
+  let v_tied_projects_2 := (if (py_nat_lt 1%nat (length v_tied_projects))
+  then let v_tied_projects_1 := (tb_order_of_key v_tie_breaking_2 v_tied_projects) in
+  v_tied_projects_1
+  else v_tied_projects) in
+  match py_for (fun (v_allocs_5 : (list py_alloc)) v_selected_project => 
+    let v_acc__1 := (@nil (aballot * Q * Q)%type) in
+  match py_for (fun (v_acc__1_1 : (list (aballot * Q * Q)%type)) v_voter => 
+    (if (approves (fst (fst v_voter)) v_selected_project)
+  then match v_min_new_maxload_3 with None => (Exit (Raise "TypeError"%string)) | Some u4 => match (py_finite u4) with None => (Exit (Raise "FloatInfinity"%string)) | Some f0 => let v_voter_1 := ((fst (fst v_voter)), f0, (snd v_voter)) in
+  let v_acc__1_2 := (v_acc__1_1 ++ [v_voter_1]) in
+  (Next v_acc__1_2) end end
+  else let v_acc__1_3 := (v_acc__1_1 ++ [v_voter]) in
+  (Next v_acc__1_3)))
+    v_voters v_acc__1 with
+  | inl v_acc__1_4 => let v_new_alloc := (v_alloc ++ [v_selected_project]) in
+  let v_new_cost := (v_cost + (py_cost v_instance v_selected_project)) in
+  match (py_remove v_projects v_selected_project) with None => (Exit (Raise "KeyError"%string)) | Some rm0 => let v_new_projs := rm0 in
+  match v_aux fuel0 v_new_projs v_acc__1_4 v_new_alloc v_new_cost v_allocs_5 with
+  | Ok (s0, s1, s2, s3) => (Next s3)
+  | Raise e0 => (Exit (Raise e0))
+  | OutOfFuel => (Exit OutOfFuel)
+  end end
+  | inr r1 => (Exit r1)
+  end)
+    v_tied_projects_2 v_allocs with
+  | inl v_allocs_6 => (Ok (v_projects, v_voters, v_alloc, v_allocs_6))
+  | inr r2 => r2
+  end end) end
+  | inr r0 => r0
+  end)
+    end) in
+  match v_aux fuel v_initial_projects v_voters_details_1 v_initial_budget_allocation_3 v_current_cost v_all_budget_allocations with
+  | Ok (s4, s5, s6, s7) => (Ok s7)
+  | Raise e1 => (Raise e1)
+  | OutOfFuel => OutOfFuel
+  end) in
+  match v_initial_loads with
+  | None => let v_voters_details := (map (fun v_b => (v_b, 0, (Qnat (amul v_b)))) v_profile) in
+  (kJ2 v_voters_details)
+  | Some v_initial_loads_1 => match (py_all_some (map (fun '(v_i, v_b_1) => match (py_getitem v_initial_loads_1 v_i) with None => None | Some g0 => Some (v_b_1, g0, (Qnat (amul v_b_1))) end) (py_enumerate v_profile))) with None => (Raise "IndexError"%string) | Some c0 => (kJ2 c0) end
+  end.
+(* what every variable of the function is bound to, and whether that object is mutated in place *)
+Definition gen_alias_sequential_phragmen_irr : list py_alias :=
+  [mkAlias "instance"%string (AliasOf "instance"%string) false;
+   mkAlias "profile"%string Scalar false;
+   mkAlias "initial_loads"%string (AliasOf "initial_loads"%string) false;
+   mkAlias "initial_budget_allocation"%string (AliasOf "initial_budget_allocation"%string) false;
+   mkAlias "initial_budget_allocation"%string Fresh true;
+   mkAlias "tie_breaking"%string Scalar false;
+   mkAlias "current_cost"%string Scalar false;
+   mkAlias "initial_projects"%string Fresh true;
+   mkAlias "voters_details"%string Fresh true;
+   mkAlias "supps"%string Scalar false;
+   mkAlias "scores"%string Scalar false;
+   mkAlias "all_budget_allocations"%string Fresh true;
+   mkAlias "projects"%string Fresh false;
+   mkAlias "voters"%string Fresh false;
+   mkAlias "alloc"%string Fresh true;
+   mkAlias "cost"%string Scalar false;
+   mkAlias "allocs"%string Fresh true;
+   mkAlias "min_new_maxload"%string Scalar false;
+   mkAlias "arg_min_new_maxload"%string Fresh false;
+   mkAlias "arg_min_new_maxload"%string Fresh true;
+   mkAlias "arg_min_new_maxload"%string Scalar false;
+   mkAlias "project"%string Scalar false;
+   mkAlias "new_maxload"%string Scalar false;
+   mkAlias "tied_projects"%string Fresh false;
+   mkAlias "selected_project"%string Scalar false;
+   mkAlias "new_voters"%string Fresh true;
+   mkAlias "acc__1"%string Fresh true;
+   mkAlias "voter"%string Fresh true;
+   mkAlias "new_alloc"%string Fresh true;
+   mkAlias "new_cost"%string Scalar false;
+   mkAlias "new_projs"%string Fresh true].
+
 End Gen.
 Definition gen_untranslated_exhaustion : list string := [].
 Definition gen_untranslated_composition : list string := [].
 Definition gen_untranslated_greedy : list string := [].
+Definition gen_untranslated_phragmen : list string := [].
